@@ -38,6 +38,17 @@ def configs(rng, tier):
             "seed": i,
         }
         out.append(cfg)
+    # intervals that leave the contact point out but reach into its
+    # weighting distance (only the indentation part is fitted)
+    for j, mk in enumerate(models if tier == "quick" else models * 4):
+        out.append({
+            "model_key": mk, "segment": [0, 1][j % 2],
+            "range_x": [[float("-inf"), -6e-7], [-2e-6, -5.5e-7]][j % 2],
+            "weight_cp": [1e-6, 2e-6, 7e-7][j % 3], "gcf_k": 1.0,
+            "method": "leastsq", "noise": [0.0, 1e-11][j % 2],
+            "fix": ["contact_point", None][(j // 2) % 2], "expr": False,
+            "cp_true": [-3e-7, 1e-7, 4e-7][j % 3], "E_true": 2500.0,
+            "bl_true": 1e-10, "seed": 9000 + j})
     return out
 
 
